@@ -160,3 +160,7 @@ def run(chk):
     r5 = chk.rule("R5", "no subscription count update is decided by a separate load", "T7 atomic check-then-act",
                   "in SubscriptionTrie no fetch_add/fetch_sub/store on a node count is guarded by an earlier plain load() of that count: subscribe/unsubscribe run under read locks, so two callers would both pass the load")
     common.rule_no_atomic_check_then_act(chk, r5, r"patterns::trie::", floor_atomics=6)
+    # a matching message that was enqueued must become visible to recv(): producer protocol of the (filtered) ingress queue = C08 R1
+    from rules import c08
+    c08.r1_producer(chk, rid="R6")
+
